@@ -39,6 +39,10 @@ pub enum Class {
     GlobalTupleClosureIgnore,
     GlobalTree,
     InplaceCallsGlobalClosure,
+    LocalLetrec,
+    HelperLetrec,
+    GlobalNestedTupleClosures,
+    GlobalNestedRecordClosures,
     // ---- known findings on the pinned tree (rate per dsp call in `rate()`)
     LocalCaptureBound,
     ReturnedBound,
@@ -54,9 +58,10 @@ pub enum Class {
     SchedSelfNamed,
     LocalIfSelectedFn,
     LocalTupleClosure,
+    NestedTupleClosuresReturned,
 }
 
-pub const STABLE: [Class; 18] = [
+pub const STABLE: [Class; 22] = [
     Class::LocalNoCapture,
     Class::InplaceCapturing,
     Class::GlobalClosureCalled,
@@ -75,8 +80,12 @@ pub const STABLE: [Class; 18] = [
     Class::GlobalTupleClosureIgnore,
     Class::GlobalTree,
     Class::InplaceCallsGlobalClosure,
+    Class::LocalLetrec,
+    Class::HelperLetrec,
+    Class::GlobalNestedTupleClosures,
+    Class::GlobalNestedRecordClosures,
 ];
-pub const LEAKY: [Class; 14] = [
+pub const LEAKY: [Class; 15] = [
     Class::LocalCaptureBound,
     Class::ReturnedBound,
     Class::ReturnedInplace,
@@ -91,6 +100,7 @@ pub const LEAKY: [Class; 14] = [
     Class::SchedSelfNamed,
     Class::LocalIfSelectedFn,
     Class::LocalTupleClosure,
+    Class::NestedTupleClosuresReturned,
 ];
 
 impl Class {
@@ -114,6 +124,11 @@ impl Class {
             Class::GlobalTupleClosureIgnore => "global-tuple-with-closure-destructured-with-placeholder",
             Class::GlobalTree => "boxed-tree-made-by-main-folded-in-dsp",
             Class::InplaceCallsGlobalClosure => "in-place-lambda-calling-a-global-closure",
+            Class::LocalLetrec => "local-letrec-closure-in-dsp",
+            Class::HelperLetrec => "local-letrec-closure-in-a-helper",
+            Class::GlobalNestedTupleClosures => "closures-in-a-nested-tuple-made-by-main",
+            Class::GlobalNestedRecordClosures => "closures-in-a-nested-record-made-by-main",
+            Class::NestedTupleClosuresReturned => "closures-in-a-nested-tuple-returned-to-dsp",
             Class::LocalIfSelectedFn => "function-selected-by-if-bound-in-dsp",
             Class::LocalTupleClosure => "closure-inside-a-tuple-bound-in-dsp",
             Class::LocalCaptureBound => "capturing-local-closure-bound",
@@ -136,6 +151,7 @@ impl Class {
         match self {
             Class::LocalCaptureBound | Class::LocalIfSelectedFn => (1, 0),
             Class::LocalTupleClosure => (1, 1),
+            Class::NestedTupleClosuresReturned => (2, 2),
             Class::ReturnedBound
             | Class::ReturnedInplace
             | Class::PassedLambda
@@ -287,6 +303,38 @@ impl Inst {
             Class::InplaceCallsGlobalClosure => (
                 format!("fn mk{i}(q){{\n  |x| x * q\n}}\nlet g{i} = mk{i}({k})\n"),
                 format!("  let r{i} = (|y| g{i}(y) + 1.0)(now);\n"),
+                format!("r{i}"),
+            ),
+            Class::LocalLetrec => (
+                String::new(),
+                format!(
+                    "  letrec go{i} = |m| if (m > 0.0) {{ go{i}(m - 1.0) + 1.0 }} else {{ now + {k} }};\n  let r{i} = go{i}({d});\n",
+                    d = lit(n.clamp(1, 5) as f64)
+                ),
+                format!("r{i}"),
+            ),
+            Class::HelperLetrec => (
+                format!(
+                    "fn fact{i}(m){{\n  letrec go = |q| if (q > 1.0) {{ go(q - 1.0) * q }} else {{ {k} }};\n  go(m)\n}}\n"
+                ),
+                format!("  let r{i} = fact{i}({d}) + now;\n", d = lit(n.clamp(1, 5) as f64)),
+                format!("r{i}"),
+            ),
+            Class::GlobalNestedTupleClosures => (
+                format!("fn mkp{i}(q){{\n  (q, (|x| x * q, |x| x + q))\n}}\nlet pack{i} = mkp{i}({k})\n"),
+                format!("  let (a{i}, (f{i}, g{i})) = pack{i};\n  let r{i} = f{i}(a{i}) + g{i}(now);\n"),
+                format!("r{i}"),
+            ),
+            Class::GlobalNestedRecordClosures => (
+                format!(
+                    "fn mkr{i}(q){{\n  {{gain = q, osc = {{mul = |x| x * q, add = |x| x + q}}}}\n}}\nlet rpack{i} = mkr{i}({k})\n"
+                ),
+                format!("  let r{i} = rpack{i}.osc.mul(now) + rpack{i}.osc.add(rpack{i}.gain);\n"),
+                format!("r{i}"),
+            ),
+            Class::NestedTupleClosuresReturned => (
+                format!("fn mkp{i}(q){{\n  (q, (|x| x * q, |x| x + q))\n}}\n"),
+                format!("  let (a{i}, (f{i}, g{i})) = mkp{i}(now + {k});\n  let r{i} = f{i}(a{i}) + g{i}(a{i});\n"),
                 format!("r{i}"),
             ),
             Class::LocalIfSelectedFn => (
